@@ -176,7 +176,11 @@ def run(ctx):
     lines = [l for l in lines if "\n" not in l]
     # whole style maps
     texts = ["", "\n\n", "# only a comment", "p => h1\n\n#c\nq q\nq q\nr => em\n  \t p.a => h2  ", "\r\n p => h1 \r\n",
-             "p:ordered-list(" + "9" * 5000 + ") => p", "p:ordered-list(" + "9" * (4300 if ctx.thorough else 300) + ") => p", "x\nx\ny\nx"]
+             "p:ordered-list(" + "9" * 5000 + ") => p", "p:ordered-list(" + "9" * (4300 if ctx.thorough else 300) + ") => p", "x\nx\ny\nx",
+             # unreadable lines whose characters any Unicode normalisation or case folding would change: each is quoted as written, and
+             # canonically equivalent lines are DIFFERENT lines (two warnings)
+             "e\u0301 is not a mapping\n\u00e9 is not a mapping\np => h1", "\u212b => \u00c5\n\u00c5 => \u212b\n\u1100\u1161 ?\n\uac00 ?",
+             "p.\ufb01 =>\n\u0130 => i\nI\u0307 => i"]
     for i in range(1500 if ctx.thorough else 250):
         ls = []
         for _ in range(rng.randint(0, 6)):
